@@ -349,6 +349,17 @@ theorem import_emits_all_a64 (asm : Bool) (existing : List (Txt × Nat)) (lines 
   rw [this]
   simp [List.map_map, Function.comp_def]
 
+/- TODO-FULL (the property's "every imported form appears", for every ISA; FALSE of the current code on
+   x86, see `d11_existing_form_swallows_import` and known finding D11-x86-same-mnemonic-arity):
+
+   theorem import_emits_all (isa : Isa) (st : MState) (es : List Entry) :
+       dumpAdded (insertAll isa st es) = dumpAdded st ++ es
+
+   Proved below: the AArch64 instance without hypothesis (`import_emits_all_a64`) and, for any ISA, the
+   statement under the no-collision hypothesis (`import_emits_all_partial`).  Missing: x86 when another
+   form with the same upper-cased mnemonic and operand count is in the target model or earlier in the
+   import. -/
+
 /-- Any ISA (∀ entries, ∀ target models): if no imported form has the upper-cased mnemonic and
     operand count of a form of the target model or of an earlier imported form (as written), all
     are emitted, in order.  TODO-FULL: the property wants this without the hypothesis; on x86 it is
